@@ -1,7 +1,115 @@
-(* C08 property theorems: statements + `exact lemma` only. *)
-From CJ Require Import Common.Base C08.Model C08.Proofs.
+(* C08 property theorems: statements + `exact lemma` only.
+   run h      : the model of RegisteredDecoys after the history h (C08/Model.v)
+   ghost h k  : the life of registration k as a function of the history alone
+                (age since the first Track of the current life, used flag)          *)
+From CJ Require Import Common.Base C08.Model C08.Proofs C08.Invariant C08.Sweep C08.History C08.Bounded.
 
+(* The table agrees with the per-registration specification after every history. *)
+Theorem C08_refines_spec :
+  forall h k, tracked (run h) k = is_some (ghost h k).
+Proof. exact tracked_ghost. Qed.
+Print Assumptions C08_refines_spec.
+
+(* After a sweep a registration is tracked iff it is at most 10 min old, or has
+   carried a connection and is at most 6 h old (Appendix A form). *)
+Theorem C08_sweep_exact :
+  forall h k, tracked (run (h ++ [Sweep])) k = true <->
+    exists a, age (h ++ [Sweep]) k = Some a /\ (a <= ten_min \/ (used h k = true /\ a <= six_h)).
+Proof. exact sweep_exact. Qed.
+Print Assumptions C08_sweep_exact.
+
+(* The same with age and used both taken before the sweep. *)
+Theorem C08_sweep_exact_pre :
+  forall h k, tracked (run (h ++ [Sweep])) k = true <->
+    exists a, age h k = Some a /\ (a <= ten_min \/ (used h k = true /\ a <= six_h)).
+Proof. exact sweep_exact_pre. Qed.
+Print Assumptions C08_sweep_exact_pre.
+
+(* The code's two-armed expiry test is exactly the negation of that rule. *)
+Theorem C08_expiry_rule :
+  forall nw t, rec_expired nw t = negb (kept (nw - t_born t) (t_used t)).
+Proof. exact rec_expired_kept. Qed.
+Print Assumptions C08_expiry_rule.
+
+(* An untracked (expired and swept, or never registered) registration matches no connection. *)
 Theorem C08_expired_not_matched :
   forall h k, tracked (run h) k = false -> matches (run h) k = false.
-Proof. intros h k. exact (expired_not_matched_state (run h) k). Qed.
+Proof. exact expired_not_matched_run. Qed.
 Print Assumptions C08_expired_not_matched.
+
+(* A lookup returns exactly the tracked registrations that have been validated. *)
+Theorem C08_matches_iff_valid :
+  forall h k, matches (run h) k = valid (run h) k /\ (valid (run h) k = true -> tracked (run h) k = true).
+Proof. exact matches_iff_valid_run. Qed.
+Print Assumptions C08_matches_iff_valid.
+
+(* An untracked registration leaves nothing behind in either map. *)
+Theorem C08_forgotten_entirely :
+  forall h k, tracked (run h) k = false -> residue (run h) k = false.
+Proof. exact forgotten_entirely_run. Qed.
+Print Assumptions C08_forgotten_entirely.
+
+(* The two maps always have the same number of entries, and no phantom keeps an empty map. *)
+Theorem C08_no_residue_counts :
+  forall h, ntimeouts (run h) = ntracked (run h) /\ (nphantoms (run h) <= ntracked (run h))%nat /\
+            forall ph, count (run h) ph = 0%nat -> aget N.eqb ph (decoys (run h)) = None.
+Proof. exact no_residue_counts_run. Qed.
+Print Assumptions C08_no_residue_counts.
+
+(* Tracked state never exceeds the number of registering operations ... *)
+Theorem C08_bounded :
+  forall h, (ntracked (run h) <= length (filter is_start h))%nat.
+Proof. exact bounded. Qed.
+Print Assumptions C08_bounded.
+
+(* ... and after a sweep it is bounded by the registering operations of the last 6 hours. *)
+Theorem C08_bounded_by_rate :
+  forall h, (ntracked (run (h ++ [Sweep])) <= length (starts_within six_h h))%nat.
+Proof. exact bounded_by_rate. Qed.
+Print Assumptions C08_bounded_by_rate.
+
+(* (every element of that window is a registering operation followed by at most the limit) *)
+Theorem C08_window_sound :
+  forall lim h key, In key (starts_within lim h) ->
+    exists h1 o h2, h = h1 ++ o :: h2 /\ starts o (key_regkey key) = true /\ elapsed h2 <= lim.
+Proof. exact starts_within_sound. Qed.
+Print Assumptions C08_window_sound.
+
+(* Never early: a new registration survives every sweep of its first 10 minutes ... *)
+Theorem C08_never_early :
+  forall h1 o h2 k, tracked (run h1) k = false -> starts o k = true -> elapsed h2 <= ten_min ->
+    tracked (run (h1 ++ o :: h2)) k = true.
+Proof. exact never_early. Qed.
+Print Assumptions C08_never_early.
+
+(* ... and every sweep of its first 6 hours once it has carried a connection. *)
+Theorem C08_never_early_used :
+  forall h1 o h2 h3 k, tracked (run h1) k = false -> starts o k = true -> elapsed h2 <= ten_min ->
+    elapsed h2 + elapsed h3 <= six_h ->
+    tracked (run (h1 ++ o :: h2 ++ MarkActive k :: h3)) k = true.
+Proof. exact never_early_used. Qed.
+Print Assumptions C08_never_early_used.
+
+(* Never late: whatever survives a sweep was registered (while untracked) at most 10 min
+   ago, or at most 6 h ago with a connection since. *)
+Theorem C08_never_late :
+  forall h k, tracked (run (h ++ [Sweep])) k = true ->
+    exists h1 o h2, h = h1 ++ o :: h2 /\ starts o k = true /\ tracked (run h1) k = false /\
+      (elapsed h2 <= ten_min \/ (In (MarkActive k) h2 /\ elapsed h2 <= six_h)).
+Proof. exact never_late. Qed.
+Print Assumptions C08_never_late.
+
+(* removeRegistration never dereferences a missing record in a sequential history. *)
+Theorem C08_no_panic :
+  forall h, panicked (run h) = false.
+Proof. exact no_panic_run. Qed.
+Print Assumptions C08_no_panic.
+
+(* The order in which Go's map iteration collects the expired indices does not matter. *)
+Theorem C08_sweep_order_irrelevant :
+  forall h order k, collects (run h) order ->
+    registration_exists (sweep_in order (run h)) k = registration_exists (sweep (run h)) k /\
+    has_timeout (sweep_in order (run h)) k = has_timeout (sweep (run h)) k /\
+    panicked (sweep_in order (run h)) = false.
+Proof. exact sweep_order_irrelevant_run. Qed.
+Print Assumptions C08_sweep_order_irrelevant.
